@@ -419,7 +419,7 @@ mod c18 {
     /// (on 16 symbolic bytes such a change only times out = inconclusive).
     #[kani::proof]
     #[kani::stub(uuid::Uuid::new_v5, new_v5_recorder)]
-    #[kani::unwind(8)]
+    #[kani::unwind(20)]
     fn c18_uuid_wiring_3() {
         c18_wiring::<3>();
     }
